@@ -18,7 +18,7 @@ func init() {
 	register("C19",
 		"Structural necessary conditions of C19 decided from /repo's SSA: (json) every MarshalJSON in the module returns the result of encoding/json (or, for object ids, hex digits between constant quotes) and the bytes written for --json are the unmodified result of json.MarshalIndent; (footnotes) a new footnote's number and its append are in the same unseen-text branch with number = count+1, numbering at print time is by position, empty text yields no citation, citations are created only while emitting a row and reach the row's citation column; (unbounded-lines) no line-oriented stage downstream of a git command whose lines carry names (rev-list --objects paths, for-each-ref refnames) uses a length-capped scanner. Not decided: validity of the emitted JSON and table for concrete byte strings (encoding/json is trusted to escape).",
 		[]string{"encoding/json escapes every string it marshals", "bufio.Scanner fails on tokens longer than its buffer limit (64 KiB by default)"},
-		ruleC19JSON, ruleC19Footnotes, ruleC19UnboundedLines)
+		ruleC19JSON, ruleC19Footnotes, ruleC19UnboundedLines, ruleC19NoCrash)
 }
 
 // ---------------- C14 ----------------
@@ -220,6 +220,69 @@ func ruleC14Families(c *Ctx) {
 				guards[s] = true
 			}
 		}
+		// `if !anyChanged(flags, "a", "b", …)`: a loop over a literal list of names that
+		// leaves as soon as one of them was given; the read sits behind the loop's
+		// normal exit, so none of the listed names was given
+		for _, l := range loopsOf(mainImpl) {
+			if l.Blocks[call.Block()] {
+				continue
+			}
+			var exit *ssa.BasicBlock
+			for _, s := range l.Head.Succs {
+				if !l.Blocks[s] {
+					exit = s
+				}
+			}
+			if exit == nil || !(exit == call.Block() || edgeDominates(l.Head, exit, call.Block())) {
+				continue
+			}
+			// every iteration tests Changed(element) and leaves the loop when it is true
+			var names []string
+			okLoop := false
+			for b := range l.Blocks {
+				iff, ok := b.Instrs[len(b.Instrs)-1].(*ssa.If)
+				if !ok || b == l.Head {
+					continue
+				}
+				cond, truth := normCond(iff.Cond, true)
+				ch, ok := cond.(*ssa.Call)
+				if !ok || calleeQ(&ch.Call) != "(*github.com/spf13/pflag.FlagSet).Changed" {
+					continue
+				}
+				given := b.Succs[0]
+				if !truth {
+					given = b.Succs[1]
+				}
+				if l.Blocks[given] {
+					continue // Changed==true stays in the loop: not an any-loop
+				}
+				// the tested name is the current element of a literal list
+				u, ok := c.resolve(ch.Call.Args[1]).(*ssa.UnOp)
+				if !ok {
+					continue
+				}
+				ia, ok := u.X.(*ssa.IndexAddr)
+				if !ok {
+					continue
+				}
+				// the index is the loop counter (phi of the head, or phi+1 in a rotated range loop)
+				idx := ia.Index
+				if bo, isBO := idx.(*ssa.BinOp); isBO && bo.Op == token.ADD {
+					idx = bo.X
+				}
+				if phi, isPhi := idx.(*ssa.Phi); !isPhi || phi.Block() != l.Head {
+					continue
+				}
+				if elems, ok := c.stringElems(c.resolve(ia.X)); ok {
+					names, okLoop = elems, true
+				}
+			}
+			if okLoop {
+				for _, n := range names {
+					guards[n] = true
+				}
+			}
+		}
 		var missing []string
 		for _, f := range fam {
 			if !guards[f] {
@@ -300,13 +363,9 @@ func ruleC14Constants(c *Ctx) {
 	if tfv := c.namedType("/sizes", "thresholdFlagValue"); tfv != nil {
 		if set := c.methodOf(types.NewPointer(tfv), "Set"); set != nil {
 			okTrue, okFalse := false, false
-			allInstrs(set, func(in ssa.Instruction) {
-				st, ok := in.(*ssa.Store)
-				if !ok || !isNamed(st.Val.Type(), modPath+"/sizes", "Threshold") {
-					return
-				}
+			judge := func(val ssa.Value, facts []condFact) {
 				var truthKnown, truth bool
-				for _, f := range factsAt(st.Block()) {
+				for _, f := range facts {
 					cond, t := normCond(f.Cond, f.Truth)
 					if ex, ok := cond.(*ssa.Extract); ok && ex.Index == 0 {
 						if call, ok := ex.Tuple.(*ssa.Call); ok && calleeQ(&call.Call) == "strconv.ParseBool" {
@@ -318,12 +377,26 @@ func ruleC14Constants(c *Ctx) {
 					return
 				}
 				if truth {
-					if _, p := c.fieldPath(c.resolve(st.Val)); len(p) == 1 {
+					if _, p := c.fieldPath(c.resolve(val)); len(p) == 1 {
 						okTrue = true
 					}
-				} else if k, ok := constFloat(st.Val); ok && k == 1 {
+				} else if k, ok := constFloat(val); ok && k == 1 {
 					okFalse = true
 				}
+			}
+			allInstrs(set, func(in ssa.Instruction) {
+				st, ok := in.(*ssa.Store)
+				if !ok || !isNamed(st.Val.Type(), modPath+"/sizes", "Threshold") {
+					return
+				}
+				if phi, isPhi := st.Val.(*ssa.Phi); isPhi {
+					// `v := 1; if value { v = x.value }; *target = v`
+					for i, e := range phi.Edges {
+						judge(e, factsOnEdge(phi.Block().Preds[i], phi.Block()))
+					}
+					return
+				}
+				judge(st.Val, factsAt(st.Block()))
 			})
 			// "the last one given wins": every successful Set writes the shared variable
 			succ := map[*ssa.BasicBlock]bool{}
@@ -450,6 +523,29 @@ func ruleC14Aliases(c *Ctx) {
 	} else {
 		c.violate("C14.aliases", "regexp-alias", set.Pos(), name, fmt.Sprintf("--include-regexp/--exclude-regexp do not reach git.RegexpFilter under the regexp bit and the shared Combine (bit guard ok=%v, Combine sites=%d)", okBit, combines))
 	}
+	// under the regexp bit nothing but RegexpFilter builds the filter (no "literal pattern" shortcut
+	// through the prefix filter: /R/ is a whole-name match, a prefix is not)
+	allInstrs(set, func(in ssa.Instruction) {
+		call, ok := in.(*ssa.Call)
+		if !ok || call == direct {
+			return
+		}
+		cal := call.Call.StaticCallee()
+		if cal == nil || !c.inRuleScope(cal) || cal.Signature.Recv() != nil || pkgOf(cal) != modPath+"/git" {
+			return
+		}
+		res := cal.Signature.Results()
+		if res.Len() == 0 || !isNamed(res.At(0).Type(), modPath+"/git", "ReferenceFilter") {
+			return
+		}
+		underBit := guardedBy(call.Block(), func(cond ssa.Value, truth bool) bool {
+			_, p := c.fieldPath(c.resolve(cond))
+			return truth && len(p) == 1 && isBoolType(cond.Type())
+		})
+		if underBit {
+			c.violate("C14.aliases", "regexp-alias:other-constructor", call.Pos(), name, "under the regexp bit the filter is (also) built with "+fnName(cal)+": --include-regexp R and --include /R/ would select different references")
+		}
+	})
 	// pattern passed to RegexpFilter in both routes is the user's text: direct = the option argument
 	if direct != nil {
 		if _, isParam := c.resolve(direct.Call.Args[0]).(*ssa.Parameter); !isParam {
@@ -1058,4 +1154,17 @@ func ruleC14ConfigTypes(c *Ctx) {
 	if nBool < 1 || nInt < 1 {
 		c.violate("C14.config-types", "floor", token.NoPos, "", fmt.Sprintf("expected a boolean and an integer gitconfig accessor (sizer.progress, sizer.jsonVersion), found %d and %d", nBool, nInt))
 	}
+}
+
+// ruleC19NoCrash: a report is not well-formed if rendering it panics for
+// some name: the index/slice/repeat obligations of the table renderer and
+// the footnotes (C07.render-total's) under C19's name.
+func ruleC19NoCrash(c *Ctx) {
+	c.checkBounds("C19.no-crash", func(f *ssa.Function) bool {
+		if pkgOf(f) != modPath+"/sizes" {
+			return false
+		}
+		file := c.fileOf(f)
+		return file == "output.go" || file == "footnotes.go"
+	}, boundsExceptions)
 }
